@@ -69,6 +69,14 @@ def main(argv):
     ctx = {'tier': tier, 'seed': seed}
     try:
         items = check.plan(ctx)
+        flt = [f for f in os.environ.get('VP_PLAN_FILTER', '').split(',') if f]
+        if flt:
+            # bookkeeping runs against seeded changes only (vp/tools/seedtest.py): the work items that name the touched
+            # modules; never used by the registered commands
+            keep = [it for it in items if any(("'%s'" % f) in repr(it) for f in flt)]
+            if keep:
+                print('plan restricted to %d of %d work items (VP_PLAN_FILTER)' % (len(keep), len(items)))
+                items = keep
         merged = core.run_pool(check, items, getattr(check, 'NPROC', None))
         if hasattr(check, 'finish'):
             check.finish(ctx, merged)
